@@ -45,6 +45,13 @@ PROPS = {
                  quick=dict(MaxArrivals=4), thorough=dict(MaxArrivals=6),
                  invariants=["TypeOK", "LiveAgree", "NoLostWake", "Inv_C13a", "Inv_C13b"]),
         ],
+        apalache=[
+            dict(what="base case", spec="spec/apa/KeysInd.tla", cinit="ConstInit", init="Init", inv="IndInv", length=0, expect="NoError"),
+            dict(what="inductive step", spec="spec/apa/KeysInd.tla", cinit="ConstInit", init="IndInit", inv="IndInv", length=1, expect="NoError"),
+            dict(what="invariant implies the limit", spec="spec/apa/KeysInd.tla", cinit="ConstInit", init="IndInit", inv="Safety", length=0, expect="NoError"),
+            dict(what="non-vacuity probe", spec="spec/apa/KeysInd.tla", cinit="ConstInit", init="IndInit", inv="Probe1", length=0, expect="Error"),
+            dict(what="pre-F1 code is not inductive", spec="spec/apa/KeysInd.tla", cinit="ConstInitBroken", init="IndInit", inv="IndInv", length=1, expect="Error"),
+        ],
         families=[
             dict(family="keys", trace_module="Trace_Keys",
                  random_quick=3000, random_thorough=40000,
@@ -165,9 +172,11 @@ CLIENT_PROPS = {
               "the guard's three drop steps interleaved with other tasks through hook H1; non-trivial = contains an abandon; distinct by (cfg, steps)"),
         assumptions=CLIENT_ASSUME,
         models=[cmodel("abandon-matrix", ["M_C03"], Deadlines="{9}", PeerBudget=2, thorough=dict(Deadlines="{1, 9}", PeerBudget=3)),
+                cmodel("abandon-write-fault", ["M_C03"], Deadlines="{9}", FaultOps='{"send"}'),
                 cmodel("abandon-slow-sink", ["M_C03"], Deadlines="{9}", SinkMode='"coupled"', thorough=dict(PeerBudget=2))],
         families=[client_family([cexport("abandon", Deadlines="{9}", PeerBudget=2, MaxTime=1),
-                                 cexport("abandon-slow", Deadlines="{9}", SinkMode='"coupled"', cap_quick=1500)], 2000, 40000, {"faults": 0})],
+                                 cexport("abandon-slow", Deadlines="{9}", SinkMode='"coupled"', cap_quick=1500)], 2000, 40000, {"faults": 0}),
+                  dict(client_family([cexport("abandon-write-fault", Deadlines="{9}", FaultOps='{"send"}', cap_quick=1500)], 1500, 30000), tag="faults")],
         relevant=lambda e: has(e, "Drop", "DropEnter"),
     ),
     "C05": dict(
@@ -176,8 +185,10 @@ CLIENT_PROPS = {
               "non-trivial = a call with a near deadline and at least one clock tick; distinct by (cfg, steps)"),
         assumptions=CLIENT_ASSUME + ["timer granularity 1 ms: 'once its deadline passes' is evaluated at settle points with now >= deadline + 1 ms"],
         models=[cmodel("deadlines", ["M_C05"], Deadlines="{0, 1, 2}", MaxTime=3,
-                       thorough=dict(PeerBudget=2))],
-        families=[client_family([cexport("deadlines", Deadlines="{0, 1, 2}", MaxTime=3)], 2000, 40000, {"faults": 0})],
+                       thorough=dict(PeerBudget=2)),
+                cmodel("deadlines-slow-sink", ["M_C05"], Deadlines="{1, 2}", MaxTime=3, SinkMode='"coupled"', MaxInFlight=2, Cap=2, quick=dict(PeerBudget=0))],
+        families=[client_family([cexport("deadlines", Deadlines="{0, 1, 2}", MaxTime=3),
+                                 cexport("deadlines-slow", Deadlines="{1, 2}", MaxTime=3, SinkMode='"coupled"', MaxInFlight=2, Cap=2, cap_quick=2500, quick=dict(PeerBudget=0))], 2000, 40000, {"faults": 0})],
         relevant=lambda e: has(e, "Tick") and any(s.get("a") == "Call" and s.get("dl", 10000) < 1000 for s in e.get("steps", [])),
     ),
     "C09": dict(
@@ -363,6 +374,8 @@ PROPS["C10"]["models"].append(smodel("server-shutdown", ["M_C10"], CancelBudget=
 PROPS["C10"]["families"].append(server_family([sexport("shutdown", CancelBudget=1)], 2000, 30000, {"fresh": 1, "faults": 0}))
 PROPS["C11"]["models"].append(smodel("server-reclaim", ["M_C11"], AllowAppDrop=True, thorough=dict(MaxInc=3)))
 PROPS["C11"]["families"].append(server_family([sexport("reclaim", AllowAppDrop=True)], 2500, 30000, {"fresh": 1, "reqs": 8}))
+# duplicates of in-flight ids must leave neither an entry nor a timer behind
+PROPS["C11"]["families"].append(dict(server_family([], 2000, 20000, {"fresh": 0, "faults": 0, "appdrop": 0, "dups": 1}), tag="dups"))
 PROPS["C14"]["models"].append(smodel("server-coupled", ["M_C14"], SinkMode='"coupled"', Limit=1, CancelBudget=0))
 PROPS["C14"]["models"].append(smodel("server-independent", ["M_C14"], SinkMode='"independent"', Limit=1, CancelBudget=0))
 PROPS["C14"]["families"].append(server_family([sexport("coupled", SinkMode='"coupled"', Limit=1, CancelBudget=0, cap_quick=1000),
@@ -632,6 +645,21 @@ def chain_fixed(tier):
                         steps.append({"a": "Tick", "d": 5} if a == "Tick5" else {"a": a})
                     k += 1
                     out.append(dict(id="fixed:chain:%d" % k, cfg={"depth": depth, "delays": delays[:depth]}, steps=steps))
+    # back-pressure on one hop's client transport while the head is abandoned / the deadline passes
+    for depth in (1, 2, 3):
+        for g in range(1, depth + 1):
+            for delays in ([0, 0, 0], [1, 0, 2]):
+                for dl in (1000, 6):
+                    for script in (["Settle", "GateClose", "Abandon", "Settle", "GateOpen"], ["Settle", "GateClose", "Abandon", "Settle"],
+                                   ["Settle", "GateClose", "Abandon", "PollOnce", "GateOpen", "PollOnce"],
+                                   ["Settle", "GateClose", "Abandon", "Settle", "Tick5", "Settle", "GateOpen"],
+                                   ["GateClose", "Settle", "Abandon", "Settle", "GateOpen"], ["Settle", "GateClose", "Tick5", "Settle", "Tick5"],
+                                   ["Settle", "GateClose", "CompleteLeaf", "Settle", "Abandon", "GateOpen"]):
+                        steps = [{"a": "Start", "dl": dl, "tr": 5242 + k, "sampled": k % 2 == 0}]
+                        for a in script:
+                            steps.append({"a": "Tick", "d": 5} if a == "Tick5" else {"a": a, "k": g} if a.startswith("Gate") else {"a": a})
+                        k += 1
+                        out.append(dict(id="fixed:chain:%d" % k, cfg={"depth": depth, "delays": delays[:depth], "gated": [g]}, steps=steps))
     return out
 
 
@@ -640,7 +668,7 @@ def chain_family(rq, rt):
 
 
 def chain_model(**over):
-    return dict(module="Chain", name="chain", spec="FairSpec", constants=dict(Depth=2, Delays="{0, 1}", Deadline=3, MaxTime=6, **over),
+    return dict(module="Chain", name="chain", spec="FairSpec", constants=dict(Depth=2, Delays="{0, 1}", Deadline=3, MaxTime=6, GateBudget=1, **over),
                 quick={}, thorough=dict(Depth=3, MaxTime=8), invariants=["Inv_C07", "Inv_C18", "Inv_AbortCause"],
                 properties=["Live_Cascade"], coverage=False)
 
